@@ -1,3 +1,531 @@
--- placeholder: native driver of property C11 (see checks/README.md)
-def main (_ : List String) : IO UInt32 := do
-  IO.eprintln "drv_c11: not built yet"; return 2
+import GlmVerif.Hand.C11
+import Std.Data.HashSet
+import GlmVerif.Gen.C11Consts
+/-!
+# drv_c11 — native driver of property C11
+
+  drv_c11 lines <file>                       read the harness's lines `op ty args.. -> res..`, evaluate the
+                                             model (Hand/C11.lean) and the executable specification on glm's
+                                             results; print MISMATCH / SPECFAIL lines and a `CORR …` summary
+  drv_c11 sweep <op> <quick|thorough> b0 b1  block hashes of the model over the unary binary32 sweep
+                                             (same enumeration and FNV-1a fold as diff/C11.cpp)
+  drv_c11 consts                             bits each parsed literal must produce (from Gen/C11Consts.lean … via
+                                             the rational rounding of Hand/C11.lean §9) — see `constsMain`
+
+Comparison modes of a result: `exact` bit for bit; `nanc` NaN as a class (arithmetic results);
+`zsgn` additionally tolerates the sign of a zero (libm `fmin/fmax(+0,-0)` is unspecified by C).
+-/
+open GlmVerif.C11
+
+/-- the model functions at one precision; bit patterns travel as `UInt64` -/
+structure M where
+  isF : Bool
+  signMask : UInt64
+  quietBit : UInt64
+  isNaN : UInt64 → Bool
+  isInf : UInt64 → Bool
+  isFinite : UInt64 → Bool
+  isZero : UInt64 → Bool
+  lt : UInt64 → UInt64 → Bool
+  le : UInt64 → UInt64 → Bool
+  feq : UInt64 → UInt64 → Bool
+  zero : UInt64
+  one : UInt64
+  negOne : UInt64
+  half : UInt64
+  min : UInt64 → UInt64 → UInt64
+  max : UInt64 → UInt64 → UInt64
+  fmin2 : UInt64 → UInt64 → UInt64
+  fmax2 : UInt64 → UInt64 → UInt64
+  fmin3 : UInt64 → UInt64 → UInt64 → UInt64
+  fmax3 : UInt64 → UInt64 → UInt64 → UInt64
+  fmin4 : UInt64 → UInt64 → UInt64 → UInt64 → UInt64
+  fmax4 : UInt64 → UInt64 → UInt64 → UInt64 → UInt64
+  abs : UInt64 → UInt64
+  sign : UInt64 → UInt64
+  floorS : UInt64 → UInt64
+  ceilS : UInt64 → UInt64
+  truncS : UInt64 → UInt64
+  roundS : UInt64 → UInt64
+  rintS : UInt64 → UInt64
+  roundEven : UInt64 → UInt64
+  fract : UInt64 → UInt64
+  modfInt : UInt64 → UInt64
+  modfFrac : UInt64 → UInt64
+  mirrorRepeat : UInt64 → UInt64
+  iround : UInt64 → UInt32
+  uround : UInt64 → UInt32
+  fadd : UInt64 → UInt64 → UInt64
+  /-- |x − n| ≤ 1/2 for the integer n (exact) -/
+  nearestInt : UInt64 → UInt32 → Bool
+  -- formulas glm evaluates in plain IEEE arithmetic (not modelled in soft-float): native ops
+  nMix : UInt64 → UInt64 → UInt64 → UInt64
+  nSmooth : UInt64 → UInt64 → UInt64 → UInt64
+  nMod : UInt64 → UInt64 → UInt64
+  nLdexp : UInt64 → Int → UInt64
+  nFrexpOK : UInt64 → UInt64 → Int → Bool
+
+@[inline] def w32 (f : UInt32 → UInt32) : UInt64 → UInt64 := fun x => (f x.toUInt32).toUInt64
+@[inline] def w32b (f : UInt32 → Bool) : UInt64 → Bool := fun x => f x.toUInt32
+@[inline] def w322 (f : UInt32 → UInt32 → UInt32) : UInt64 → UInt64 → UInt64 := fun x y => (f x.toUInt32 y.toUInt32).toUInt64
+@[inline] def w322b (f : UInt32 → UInt32 → Bool) : UInt64 → UInt64 → Bool := fun x y => f x.toUInt32 y.toUInt32
+@[inline] def f32 (x : UInt64) : Float32 := Float32.ofBits x.toUInt32
+@[inline] def b32 (x : Float32) : UInt64 := x.toBits.toUInt64
+
+def idist (x : UInt32) (n : UInt64) : UInt64 :=
+  if fix24 x ≥ (n <<< 24) then fix24 x - (n <<< 24) else (n <<< 24) - fix24 x
+
+def mF : M where
+  isF := true
+  signMask := 0x80000000
+  quietBit := 0x400000
+  isNaN := w32b isNaN
+  isInf := w32b isInf
+  isFinite := w32b isFinite
+  isZero := w32b isZero
+  lt := w322b lt
+  le := w322b le
+  feq := w322b feq
+  zero := fZero.toUInt64
+  one := fOne.toUInt64
+  negOne := fNegOne.toUInt64
+  half := fHalf.toUInt64
+  min := w322 GlmVerif.C11.min
+  max := w322 GlmVerif.C11.max
+  fmin2 := w322 fmin2
+  fmax2 := w322 fmax2
+  fmin3 := fun a b c => (fmin3 a.toUInt32 b.toUInt32 c.toUInt32).toUInt64
+  fmax3 := fun a b c => (fmax3 a.toUInt32 b.toUInt32 c.toUInt32).toUInt64
+  fmin4 := fun a b c d => (fmin4 a.toUInt32 b.toUInt32 c.toUInt32 d.toUInt32).toUInt64
+  fmax4 := fun a b c d => (fmax4 a.toUInt32 b.toUInt32 c.toUInt32 d.toUInt32).toUInt64
+  abs := w32 abs
+  sign := w32 sign
+  floorS := w32 floorS
+  ceilS := w32 ceilS
+  truncS := w32 truncS
+  roundS := w32 roundS
+  rintS := w32 rintS
+  roundEven := w32 roundEven
+  fract := w32 fract
+  modfInt := w32 modfInt
+  modfFrac := w32 modfFrac
+  mirrorRepeat := w32 mirrorRepeat
+  iround := fun x => (iround x.toUInt32).toUInt32
+  uround := fun x => uround x.toUInt32
+  fadd := w322 fadd
+  nearestInt := fun x n =>
+    let x := x.toUInt32
+    if expo x < 126 then n == 0 else idist x n.toUInt64 ≤ 0x800000
+  nMix := fun x y a => b32 (f32 x * (1 - f32 a) + f32 y * f32 a)
+  nSmooth := fun e0 e1 x =>
+    let t := (f32 x - f32 e0) / (f32 e1 - f32 e0)
+    let t := Float32.ofBits (clamp t.toBits fZero fOne)
+    b32 (t * t * (3 - 2 * t))
+  nMod := fun a b => b32 (f32 a - f32 b * (f32 a / f32 b).floor)
+  nLdexp := fun x e => b32 ((f32 x).scaleB e)
+  nFrexpOK := fun x m e =>
+    let xv := f32 x
+    let mv := f32 m
+    if xv.isNaN then mv.isNaN
+    else if xv.isInf || xv == 0 then m == x
+    else mv.abs ≥ 0.5 && mv.abs < 1 && (mv.scaleB e).toBits == xv.toBits
+
+@[inline] def f64 (x : UInt64) : Float := Float.ofBits x
+
+def mD : M where
+  isF := false
+  signMask := 0x8000000000000000
+  quietBit := 0x8000000000000
+  isNaN := D.isNaN
+  isInf := D.isInf
+  isFinite := D.isFinite
+  isZero := D.isZero
+  lt := D.lt
+  le := D.le
+  feq := D.feq
+  zero := D.fZero
+  one := D.fOne
+  negOne := D.fNegOne
+  half := D.fHalf
+  min := D.min
+  max := D.max
+  fmin2 := D.fmin2
+  fmax2 := D.fmax2
+  fmin3 := D.fmin3
+  fmax3 := D.fmax3
+  fmin4 := D.fmin4
+  fmax4 := D.fmax4
+  abs := D.abs
+  sign := D.sign
+  floorS := D.floorS
+  ceilS := D.ceilS
+  truncS := D.truncS
+  roundS := D.roundS
+  rintS := D.rintS
+  roundEven := D.roundEven
+  fract := D.fract
+  modfInt := D.modfInt
+  modfFrac := D.modfFrac
+  mirrorRepeat := D.mirrorRepeat
+  iround := fun x => (D.iround x).toUInt32
+  uround := D.uround
+  fadd := D.fadd
+  nearestInt := fun x n => (f64 x - n.toFloat).abs ≤ 0.5     -- exact: x < 2^32 and n are multiples of ulp(x)
+  nMix := fun x y a => (f64 x * (1 - f64 a) + f64 y * f64 a).toBits
+  nSmooth := fun e0 e1 x =>
+    let t := (f64 x - f64 e0) / (f64 e1 - f64 e0)
+    let t := Float.ofBits (D.clamp t.toBits D.fZero D.fOne)
+    (t * t * (3 - 2 * t)).toBits
+  nMod := fun a b => (f64 a - f64 b * (f64 a / f64 b).floor).toBits
+  nLdexp := fun x e => ((f64 x).scaleB e).toBits
+  nFrexpOK := fun x m e =>
+    let xv := f64 x
+    let mv := f64 m
+    if xv.isNaN then mv.isNaN
+    else if xv.isInf || xv == 0 then m == x
+    else mv.abs ≥ 0.5 && mv.abs < 1 && (mv.scaleB e).toBits == xv.toBits
+
+namespace M
+variable (m : M)
+@[inline] def same (x y : UInt64) : Bool := x == y || (m.isNaN x && m.isNaN y)
+@[inline] def zsame (x y : UInt64) : Bool := m.same x y || (m.isZero x && m.isZero y)
+@[inline] def clamp (x lo hi : UInt64) : UInt64 := m.min (m.max x lo) hi
+@[inline] def fclamp (x lo hi : UInt64) : UInt64 := m.fmin2 (m.fmax2 x lo) hi
+@[inline] def step (edge x : UInt64) : UInt64 := if m.lt x edge then m.zero else m.one
+@[inline] def in01 (r : UInt64) : Bool := m.le m.zero r && m.le r m.one
+/-- `r` is one of the operands (bit-identical; with `z`: up to the sign of a zero) -/
+def isArg (z : Bool) (r : UInt64) (a : Array UInt64) : Bool :=
+  a.any fun x => if z then m.zsame r x else r == x
+def allNaN (a : Array UInt64) : Bool := a.all m.isNaN
+def noNaN (a : Array UInt64) : Bool := a.all fun x => !m.isNaN x
+/-- order-theoretic minimum of the non-NaN operands -/
+def isMinOfNonNaN (r : UInt64) (a : Array UInt64) : Bool :=
+  a.all (fun x => m.isNaN x || m.le r x) && a.any (fun x => m.feq r x)
+def isMaxOfNonNaN (r : UInt64) (a : Array UInt64) : Bool :=
+  a.all (fun x => m.isNaN x || m.le x r) && a.any (fun x => m.feq r x)
+end M
+
+inductive Cmp | exact | nanc | zsgn
+deriving BEq
+
+/-- model results of one line with the comparison mode of each result -/
+def evalModel (m : M) (op : String) (a : Array UInt64) : Option (Array UInt64 × Cmp) :=
+  let x := a[0]!
+  let y := a.getD 1 0
+  let z := a.getD 2 0
+  let w := a.getD 3 0
+  match op, a.size with
+  | "floor", 1 => some (#[m.floorS x], .nanc)
+  | "ceil", 1 => some (#[m.ceilS x], .nanc)
+  | "trunc", 1 => some (#[m.truncS x], .nanc)
+  | "round", 1 => some (#[m.roundS x], .nanc)
+  | "roundEven", 1 => some (#[m.roundEven x], .nanc)
+  | "fract", 1 => some (#[m.fract x], .nanc)
+  | "abs", 1 => some (#[m.abs x], .exact)
+  | "sign", 1 => some (#[m.sign x], .exact)
+  | "isnan", 1 => some (#[(m.isNaN x).toUInt64], .exact)
+  | "isinf", 1 => some (#[(m.isInf x).toUInt64], .exact)
+  | "iround", 1 => some (#[(m.iround x).toUInt64], .exact)
+  | "uround", 1 => some (#[(m.uround x).toUInt64], .exact)
+  | "wrapClamp", 1 => some (#[m.clamp x m.zero m.one], .exact)
+  | "repeat", 1 => some (#[m.fract x], .nanc)
+  | "mirrorClamp", 1 => some (#[m.fract (m.abs x)], .nanc)
+  | "mirrorRepeat", 1 => some (#[m.mirrorRepeat x], .nanc)
+  | "modf", 1 => some (#[m.modfFrac x, m.modfInt x], .nanc)
+  | "v4", 1 =>
+    let nx := x ^^^ m.signMask
+    some (#[m.floorS x, m.floorS nx, m.roundEven x, m.roundEven nx, m.fract x, m.fract nx,
+            m.sign x, m.sign nx, m.abs x, m.abs nx, m.mirrorRepeat x, m.mirrorRepeat nx], .nanc)
+  | "min", 2 => some (#[m.min x y], .exact)
+  | "max", 2 => some (#[m.max x y], .exact)
+  | "fmin2", 2 => some (#[m.fmin2 x y], .zsgn)
+  | "fmax2", 2 => some (#[m.fmax2 x y], .zsgn)
+  | "step", 2 => some (#[m.step x y], .exact)
+  | "mod", 2 => some (#[m.nMod x y], .nanc)
+  | "fadd", 2 => some (#[m.fadd x y], .nanc)
+  | "cmp", 2 =>
+    some (#[(m.lt x y).toUInt64 ||| ((m.le x y).toUInt64 <<< 1) ||| ((m.feq x y).toUInt64 <<< 2) |||
+            ((m.le y x).toUInt64 <<< 3) ||| ((m.lt y x).toUInt64 <<< 4)], .exact)
+  | "ldexp", 2 => some (#[m.nLdexp x y.toUInt32.toInt32.toInt], .nanc)
+  | "vmin", 2 => some (#[m.min x y, m.min y x], .exact)
+  | "vmax", 2 => some (#[m.max x y, m.max y x], .exact)
+  | "vmins", 2 => some (#[m.min x y, m.min y y], .exact)
+  | "vmaxs", 2 => some (#[m.max x y, m.max y y], .exact)
+  | "vfmin2", 2 => some (#[m.fmin2 x y, m.fmin2 y x], .zsgn)
+  | "vfmax2", 2 => some (#[m.fmax2 x y, m.fmax2 y x], .zsgn)
+  | "vstep", 2 => some (#[m.step x y, m.step y x], .exact)
+  | "clamp", 3 => some (#[m.clamp x y z], .exact)
+  | "fclamp", 3 => some (#[m.fclamp x y z], .zsgn)
+  | "min3", 3 => some (#[m.min (m.min x y) z], .exact)
+  | "max3", 3 => some (#[m.max (m.max x y) z], .exact)
+  | "fmin3", 3 => some (#[m.fmin3 x y z], .zsgn)
+  | "fmax3", 3 => some (#[m.fmax3 x y z], .zsgn)
+  | "mixb", 3 => some (#[if z != 0 then y else x], .exact)
+  | "mix", 3 => some (#[m.nMix x y z], .nanc)
+  | "smoothstep", 3 => some (#[m.nSmooth x y z], .nanc)
+  | "vclamp", 3 => some (#[m.clamp x y z, m.clamp x y z], .exact)
+  | "vfclamp", 3 => some (#[m.fclamp x y z, m.fclamp x y z], .zsgn)
+  | "vmin3", 3 => some (#[m.min (m.min x y) z, m.min (m.min y z) x], .exact)
+  | "vmax3", 3 => some (#[m.max (m.max x y) z, m.max (m.max y z) x], .exact)
+  | "vfmin3", 3 => some (#[m.fmin2 (m.fmin2 x y) z, m.fmin2 (m.fmin2 y z) x], .zsgn)
+  | "vfmax3", 3 => some (#[m.fmax2 (m.fmax2 x y) z, m.fmax2 (m.fmax2 y z) x], .zsgn)
+  | "vmixb", 3 => some (#[if z != 0 then y else x, if z == 0 then x else y], .exact)
+  | "min4", 4 => some (#[m.min (m.min x y) (m.min z w)], .exact)
+  | "max4", 4 => some (#[m.max (m.max x y) (m.max z w)], .exact)
+  | "fmin4", 4 => some (#[m.fmin4 x y z w], .zsgn)
+  | "fmax4", 4 => some (#[m.fmax4 x y z w], .zsgn)
+  | "vmin4", 4 => some (#[m.min (m.min x y) (m.min z w), m.min (m.min y z) (m.min w x)], .exact)
+  | "vmax4", 4 => some (#[m.max (m.max x y) (m.max z w), m.max (m.max y z) (m.max w x)], .exact)
+  | "vfmin4", 4 => some (#[m.fmin2 (m.fmin2 x y) (m.fmin2 z w), m.fmin2 (m.fmin2 y z) (m.fmin2 w x)], .zsgn)
+  | "vfmax4", 4 => some (#[m.fmax2 (m.fmax2 x y) (m.fmax2 z w), m.fmax2 (m.fmax2 y z) (m.fmax2 w x)], .zsgn)
+  | _, _ => none
+
+/-- the *specification* verdict on glm's own results `r` (written from the GLSL / IEEE text,
+independent of how the model computes): `none` = no independent predicate for this op (the proved
+model is the specification), `some b` = verdict -/
+def specVerdict (m : M) (op : String) (a r : Array UInt64) : Option Bool :=
+  let x := a[0]!
+  let y := a.getD 1 0
+  let z := a.getD 2 0
+  let r0 := r.getD 0 0
+  let r1 := r.getD 1 0
+  match op, a.size with
+  | "floor", 1 => some (m.same r0 (m.floorS x))
+  | "ceil", 1 => some (m.same r0 (m.ceilS x))
+  | "trunc", 1 => some (m.same r0 (m.truncS x))
+  | "round", 1 => some (m.same r0 (m.roundS x))
+  | "roundEven", 1 => some (m.same r0 (m.rintS x))
+  | "fract", 1 => some (if m.isFinite x then m.in01 r0 && m.same r0 (m.fadd x (m.floorS x ^^^ m.signMask)) else m.isNaN r0)
+  | "repeat", 1 => some (if m.isFinite x then m.in01 r0 else m.isNaN r0)
+  | "mirrorClamp", 1 => some (if m.isFinite x then m.in01 r0 else m.isNaN r0)
+  | "mirrorRepeat", 1 => some (if m.isFinite x then m.in01 r0 else true)
+  | "wrapClamp", 1 => some (if m.isNaN x then true else m.in01 r0 && (if m.in01 x then r0 == x else true))
+  | "abs", 1 => some ((r0 &&& ~~~ m.signMask) == (x &&& ~~~ m.signMask) && (m.isNaN x || m.le m.zero r0))
+  | "sign", 1 => some (r0 == (if m.lt m.zero x then m.one else if m.lt x m.zero then m.negOne else m.zero))
+  | "isnan", 1 => some (r0 == (m.isNaN x).toUInt64)
+  | "isinf", 1 => some (r0 == (m.isInf x).toUInt64)
+  | "iround", 1 => some (r0 < 0x80000000 && m.nearestInt x r0.toUInt32)
+  | "uround", 1 => some (m.nearestInt x r0.toUInt32)
+  | "modf", 1 =>
+    some (if m.isNaN x then m.isNaN r0 && m.isNaN r1
+          else if m.isInf x then r1 == x && m.isZero r0 && (r0 &&& m.signMask) == (x &&& m.signMask)
+          else m.same r1 (m.truncS x) && m.feq (m.fadd r0 r1) x && (r0 &&& m.signMask) == (x &&& m.signMask))
+  | "frexp", 1 => some (m.nFrexpOK x r0 r1.toUInt32.toInt32.toInt)
+  | "min", 2 => some (m.isArg false r0 a && (!m.noNaN a || m.isMinOfNonNaN r0 a))
+  | "max", 2 => some (m.isArg false r0 a && (!m.noNaN a || m.isMaxOfNonNaN r0 a))
+  | "min3", 3 | "min4", 4 => some (m.isArg false r0 a && (!m.noNaN a || m.isMinOfNonNaN r0 a))
+  | "max3", 3 | "max4", 4 => some (m.isArg false r0 a && (!m.noNaN a || m.isMaxOfNonNaN r0 a))
+  | "fmin2", 2 | "fmin3", 3 | "fmin4", 4 =>
+    some (m.isArg true r0 a && m.isNaN r0 == m.allNaN a && (m.allNaN a || m.isMinOfNonNaN r0 a))
+  | "fmax2", 2 | "fmax3", 3 | "fmax4", 4 =>
+    some (m.isArg true r0 a && m.isNaN r0 == m.allNaN a && (m.allNaN a || m.isMaxOfNonNaN r0 a))
+  | "clamp", 3 =>
+    some (m.isArg false r0 a && (!(m.noNaN a && m.le y z) ||
+      (if m.lt x y then m.feq r0 y else if m.lt z x then m.feq r0 z else m.feq r0 x)))
+  | "fclamp", 3 =>
+    some (m.isArg true r0 a && m.isNaN r0 == m.allNaN a && (!(m.noNaN #[y, z] && m.le y z) ||
+      (if m.isNaN x then m.zsame r0 y else if m.lt x y then m.feq r0 y else if m.lt z x then m.feq r0 z else m.feq r0 x)))
+  | "step", 2 => some (r0 == (if m.lt y x then m.zero else m.one))
+  | "mixb", 3 => some (r0 == (if z != 0 then y else x))
+  | "smoothstep", 3 =>
+    -- GLSL: defined for edge0 < edge1; in [0,1], 0 below edge0, 1 above edge1.  The quotient
+    -- (x-e0)/(e1-e0) must not be inf/inf (difference overflow) for the statement to apply.
+    let dom := m.isFinite x && m.isFinite y && m.isFinite z && m.lt x y &&
+      m.isFinite (m.fadd y (x ^^^ m.signMask)) && m.isFinite (m.fadd z (x ^^^ m.signMask))
+    some (!dom || (m.in01 r0 && (if m.le z x then m.isZero r0 else if m.le y z then r0 == m.one else true)))
+  | "mix", 3 =>
+    -- a = 0 selects x, a = 1 selects y (finite operands)
+    some (if m.isFinite x && m.isFinite y && m.isZero z then m.feq r0 x
+          else if m.isFinite x && m.isFinite y && z == m.one then m.feq r0 y else true)
+  | _, _ => none
+
+-- ------------------------------------------------------------------ parsing (bytes)
+@[inline] def hexVal (c : UInt8) : UInt64 :=
+  if c ≥ 48 && c ≤ 57 then (c - 48).toUInt64 else if c ≥ 97 && c ≤ 102 then (c - 87).toUInt64 else (c - 55).toUInt64
+
+def libmMinMax (op : String) : Bool :=
+  ["fmin2", "fmax2", "fmin3", "fmax3", "fmin4", "fmax4", "fclamp", "vfmin2", "vfmax2", "vfmin3", "vfmax3",
+   "vfmin4", "vfmax4", "vfclamp"].contains op
+
+structure Stats where
+  lines : Nat := 0
+  results : Nat := 0
+  mismatches : Nat := 0
+  specfail : Nat := 0
+  speccmp : Nat := 0
+  nontrivial : Nat := 0
+  unknown : Nat := 0
+  skipped : Nat := 0
+  printed : Nat := 0
+
+def hex (x : UInt64) : String := String.ofList (Nat.toDigits 16 x.toNat)
+
+partial def runLines (buf : ByteArray) : IO Stats := do
+  let n := buf.size
+  let mut st : Stats := {}
+  let mut i := 0
+  let mut seen : Std.HashSet UInt64 := {}
+  while i < n do
+    -- op
+    let mut j := i
+    while j < n && buf.get! j != 32 && buf.get! j != 10 do j := j + 1
+    let op := String.fromUTF8! (buf.extract i j)
+    j := j + 1
+    let ty := buf.get! j
+    j := j + 2
+    let mut args : Array UInt64 := #[]
+    let mut res : Array UInt64 := #[]
+    let mut inRes := false
+    while j < n && buf.get! j != 10 do
+      let c := buf.get! j
+      if c == 45 then  -- "->"
+        inRes := true; j := j + 3
+      else
+        let mut v : UInt64 := 0
+        while j < n && buf.get! j != 32 && buf.get! j != 10 do
+          v := (v <<< 4) ||| hexVal (buf.get! j); j := j + 1
+        if inRes then res := res.push v else args := args.push v
+        if j < n && buf.get! j == 32 then j := j + 1
+    i := j + 1
+    if args.size == 0 then continue
+    st := { st with lines := st.lines + 1 }
+    let m := if ty == 102 then mF else mD
+    -- libm's fmin/fmax on a *signaling* NaN return a quiet NaN (IEEE 754-2008 minNum): outside the
+    -- documented domain of glm::fmin/fmax/fclamp ("if one argument is NaN the other is returned")
+    if libmMinMax op && args.any (fun a => m.isNaN a && (a &&& m.quietBit) == 0) then
+      st := { st with skipped := st.skipped + 1 }
+      continue
+    -- non-trivial: a result that is neither zero nor a copy of an argument; distinct by input hash
+    let h := args.foldl (fun h a => (h ^^^ a) * 0x100000001b3) (op.hash ^^^ ty.toUInt64)
+    if res.any (fun r => !(m.isZero r) && r != 0 && !args.contains r) && !seen.contains h then
+      seen := seen.insert h
+      st := { st with nontrivial := st.nontrivial + 1 }
+    let showLine := s!"{op} {Char.ofNat ty.toNat} {" ".intercalate (args.toList.map hex)} -> {" ".intercalate (res.toList.map hex)}"
+    match specVerdict m op args res with
+    | some ok =>
+      st := { st with speccmp := st.speccmp + 1 }
+      if !ok then
+        st := { st with specfail := st.specfail + 1 }
+        if st.printed < 200 then
+          IO.println s!"SPECFAIL {showLine}"
+          st := { st with printed := st.printed + 1 }
+    | none => pure ()
+    match evalModel m op args with
+    | none =>
+      if op != "frexp" then st := { st with unknown := st.unknown + 1 }
+    | some (mr, cmp) =>
+      st := { st with results := st.results + mr.size }
+      let ok := mr.size == res.size && (List.range mr.size).all fun k =>
+        let a := mr[k]!
+        let b := res[k]!
+        match cmp with
+        | .exact => a == b
+        | .nanc => m.same a b
+        | .zsgn => m.zsame a b
+      if !ok then
+        st := { st with mismatches := st.mismatches + 1 }
+        if st.printed < 200 then
+          IO.println s!"MISMATCH {showLine} model {" ".intercalate (mr.toList.map hex)}"
+          st := { st with printed := st.printed + 1 }
+  return st
+
+-- ------------------------------------------------------------------ sweeps (binary32, unary)
+@[inline] def canon (r : UInt32) : UInt32 := if (r &&& 0x7FFFFFFF) > 0x7F800000 then 0x7FC00000 else r
+@[inline] def irDom (x : UInt32) : Bool := x == 0x80000000 || x < 0x4F000000
+@[inline] def urDom (x : UInt32) : Bool := x == 0x80000000 || x < 0x4F800000
+def OUTDOM : UInt32 := 0xDEADBEEF
+
+def sweepFn (op : String) : Option (UInt32 → UInt32) :=
+  let op := if op.startsWith "v" then op.drop 1 else op     -- vector forms: the scalar function per component
+  match op with
+  | "floor" => some floorS
+  | "ceil" => some ceilS
+  | "trunc" => some truncS
+  | "round" => some roundS
+  | "roundEven" => some roundEven
+  | "fract" => some fract
+  | "abs" => some abs
+  | "sign" => some sign
+  | "isnan" => some fun x => (glmIsnan x).toUInt32
+  | "isinf" => some fun x => (glmIsinf x).toUInt32
+  | "iround" => some fun x => if irDom x then (iround x).toUInt32 else OUTDOM
+  | "uround" => some fun x => if urDom x then uround x else OUTDOM
+  | "wrapClamp" => some wrapClamp
+  | "repeat" => some wrapRepeat
+  | "mirrorClamp" => some mirrorClamp
+  | "mirrorRepeat" => some mirrorRepeat
+  | "fbti" => some fun x => (floatBitsToInt x).toUInt32
+  | "fbtu" => some floatBitsToUint
+  | "ibtf" => some fun x => intBitsToFloat x.toInt32
+  | "ubtf" => some uintBitsToFloat
+  | "modf_i" => some modfInt
+  | "modf_f" => some modfFrac
+  | _ => none
+
+/-- executable specification of the swept op on (input, result): range / definition clauses
+that are *not* the model itself.  Evaluated on the model's result; equal block hashes carry it
+over to glm. -/
+def sweepSpec (op : String) : UInt32 → UInt32 → Bool :=
+  let op := if op.startsWith "v" then op.drop 1 else op
+  match op with
+  | "roundEven" => fun x r => same r (rintS x)
+  | "fract" | "repeat" | "mirrorClamp" | "mirrorRepeat" => fun x r => !isFinite x || (le fZero r && le r fOne)
+  | "wrapClamp" => fun x r => isNaN x || (le fZero r && le r fOne)
+  | "iround" => fun x r => !irDom x || (if expo x < 126 then r == 0 else idist x r.toUInt64 ≤ 0x800000)
+  | "uround" => fun x r => !urDom x || (if expo x < 126 then r == 0 else idist x r.toUInt64 ≤ 0x800000)
+  | "sign" => fun _ r => r == fZero || r == fOne || r == fNegOne
+  | "abs" => fun x r => mag r == mag x
+  | "fbti" | "fbtu" | "ibtf" | "ubtf" => fun x r => r == x
+  | _ => fun _ _ => true
+
+def low6 : Array UInt32 := #[0, 1, 0xFFF, 0x1000, 0x1001, 0x1FFF]
+@[inline] def sweepInput (thorough : Bool) (idx : UInt64) : UInt32 :=
+  if thorough then idx.toUInt32 else (((idx / 6) <<< 13).toUInt32) ||| low6[(idx % 6).toNat]!
+
+def runSweep (op : String) (thorough : Bool) (b0 b1 : UInt64) : IO UInt32 := do
+  let some f := sweepFn op | do IO.eprintln s!"unknown sweep op {op}"; return 3
+  let spec := sweepSpec op
+  let total : UInt64 := if thorough then 0x100000000 else 0x300000
+  let mut b := b0
+  let mut nontrivial : UInt64 := 0
+  let mut specfail : UInt64 := 0
+  while b < b1 do
+    let lo := b <<< 20
+    if lo ≥ total then break
+    let hi : UInt64 := if lo + 0x100000 > total then total else lo + 0x100000
+    let mut h : UInt64 := 0xcbf29ce484222325
+    let mut i := lo
+    while i < hi do
+      let x := sweepInput thorough i
+      let r := canon (f x)
+      h := (h ^^^ r.toUInt64) * 0x100000001b3
+      if r != x && (r &&& 0x7FFFFFFF) != 0 then nontrivial := nontrivial + 1
+      if !(spec x r) then
+        specfail := specfail + 1
+        if specfail ≤ 5 then IO.println s!"SWEEPSPECFAIL {op} f {hex x.toUInt64} -> {hex r.toUInt64}"
+      i := i + 1
+    IO.println s!"H {op} {b} {String.ofList (List.replicate (16 - (hex h).length) '0')}{hex h} {hi - lo}"
+    b := b + 1
+  IO.println s!"SWEEP {op} nontrivial={nontrivial} specfail={specfail}"
+  return 0
+
+def main (args : List String) : IO UInt32 := do
+  match args with
+  | ["lines", file] =>
+    let buf ← IO.FS.readBinFile file
+    let st ← runLines buf
+    IO.println s!"CORR lines={st.lines} results={st.results} mismatches={st.mismatches} unknown={st.unknown} skipped={st.skipped} nontrivial={st.nontrivial} speccmp={st.speccmp} specfail={st.specfail}"
+    return 0
+  | ["sweep", op, mode, b0, b1] =>
+    runSweep op (mode == "thorough") b0.toNat!.toUInt64 b1.toNat!.toUInt64
+  | ["consts"] =>
+    -- the bits `genType(<literal>)` must produce: decimal -> binary64 (RNE) [-> binary32 (RNE)], by the
+    -- exact rational rounding of Hand/C11.lean §9 (the same functions the Consts theorems are about)
+    for (name, q) in GlmVerif.Gen.C11.lits do
+      if q == 0 then IO.println s!"L {name} 0 0"
+      else if q > 0 then IO.println s!"L {name} {hex (Const.litBits32 q).toUInt64} {hex (Const.litBits64 q).toUInt64}"
+      else IO.println s!"L {name} {hex ((Const.litBits32 (-q)).toUInt64 ||| 0x80000000)} {hex ((Const.litBits64 (-q)).toUInt64 ||| 0x8000000000000000)}"
+    return 0
+  | _ =>
+    IO.eprintln "usage: drv_c11 lines <file> | sweep <op> <quick|thorough> <b0> <b1>"
+    return 2
